@@ -298,7 +298,9 @@ impl Command {
                 let sources = read_files(input)?;
                 let root = sources.root;
 
-                for (path, source) in sources.sources {
+                // in path order, so that the file reported first (and the files already
+                // rewritten by then) do not depend on hash-map iteration order
+                for (path, source) in sources.sources.into_iter().sorted_by(|a, b| a.0.cmp(&b.0)) {
                     let ast = prql_to_pl(&source)?;
 
                     // If we're writing to stdout (though could this be nicer?
